@@ -139,8 +139,15 @@ def dds_hash(x: Any) -> PyHash:
             # Not going to check for obscure corner cases for now.
             check_len(elt)
             return _dds_hash([_hash_dict_tuple(k, v) for (k, v) in elt.items()], None)
-        if dataclasses.is_dataclass(elt):
+        if dataclasses.is_dataclass(elt) and not isinstance(elt, type):
             names: List[str] = [f.name for f in dataclasses.fields(elt)]
+            unset = [n for n in names if not hasattr(elt, n)]
+            if unset:
+                # A field declared with init=False that never got a value: there is nothing to hash.
+                raise DDSException(
+                    f"The fields {unset} of the dataclass {type(elt)} have no value",
+                    DDSErrorCode.TYPE_NOT_SUPPORTED,
+                )
             # TODO: this is not entirely accurate. The error message will show a 'list' type, but it is actually
             # a dataclass.
             check_len(names)
